@@ -21,7 +21,7 @@ RULE = (
     'enumeration), group orbits from pymatgen operation matrices, O(T^2) autocorrelation.  Non-trivial = at least one '
     'bond crosses a cell face in some frame and there are >= 2 clusters; distinct = SHA-1 of (cell, positions).'
 )
-RULE += ' Added in rounds 7-10: unbonded atoms of the satellite species anywhere in the atom table; a second system with the same species sequence and other bonding; near-identity / tiny-rotation / nearly singular / very large transform matrices.'
+RULE += ' Added in rounds 7-10: unbonded atoms of the satellite species anywhere in the atom table; a second system with the same species sequence and other bonding; near-identity / tiny-rotation / nearly singular / very large transform matrices. Round 13: clusters of different bond length in one cell (up to 1.3 x the shortest) with an unbonded satellite-species atom between 1.5 x the shortest distance of the cell and 1.5 x the shortest bond of a long-bond centre.'
 ASSUMPTIONS = [
     'bond length below a fifth of the smallest perpendicular cell width; clusters separated by more than 1.5 bond lengths',
     'pymatgen PointGroup operation matrices are trusted (orthogonality and closure are verified at run time)',
@@ -124,6 +124,15 @@ def run_unit(unit, rng, ctx):
     walk = np.cumsum(rng.normal(scale=0.03, size=(T, 1, 3)) * (np.arange(T) > 0)[:, None, None], axis=0)
     cent = centres0[None, :, :] + walk  # all clusters drift together: their separation is preserved
     lens = bond * rng.uniform(0.95, 1.05, size=(n_cl, 4))
+    mixed_bonds = (not large) and unit['i'] % 4 == 1 and n_cl >= 2
+    if mixed_bonds:
+        # clusters of different size in one cell (bond lengths up to 1.3 x the shortest, all below 1.5 x the shortest
+        # distance, which is the library's bonding criterion)
+        fk = rng.uniform(1.0, 1.3, size=n_cl)
+        fk[int(rng.integers(n_cl))] = 1.0
+        fk[int(rng.choice([k_ for k_ in range(n_cl) if fk[k_] != 1.0] or [0]))] = 1.3
+        lens = bond * fk[:, None] * rng.uniform(0.98, 1.02, size=(n_cl, 4))
+        ctx.count('systems_with_clusters_of_different_bond_length')
     # bond lengths may vibrate in time (+-12 %): un-normalised vectors then carry a length weighting
     breathing = bool(rng.integers(2))
     breath = 1.0 + (0.12 * np.sin(rng.uniform(0, 6.28, size=(1, n_cl, 4)) + np.arange(T)[:, None, None] * rng.uniform(0.2, 1.5, size=(1, n_cl, 4))) if breathing else np.zeros((T, n_cl, 4)))
@@ -157,6 +166,24 @@ def run_unit(unit, rng, ctx):
                 p0 = rng.uniform(0, 1, size=3)
                 if geom.min_image(m, p0[None, :], centres0)[0].min() >= 2.2 * bond * 1.06 and (not free or geom.min_image(m, p0[None, :], np.array(free))[0].min() >= 0.8):
                     free.append(p0)
+                    break
+    if mixed_bonds:
+        # an unbonded atom of the satellite species just outside the bonding criterion (1.5 x the shortest distance in
+        # the cell) of a long-bond centre, yet closer to it than 1.5 x that centre's own shortest bond
+        gmin = float(lens.min())
+        for k_ in range(n_cl):
+            lo_, hi_ = 1.5 * gmin * 1.04, 1.5 * float(lens[k_].min()) * 0.96
+            if hi_ - lo_ < 0.02:
+                continue
+            for _try in range(80):
+                d_ = float(rng.uniform(lo_, hi_))
+                p0 = centres0[k_] + (gen.random_unit_vectors(rng, 1)[0] * d_) @ inv
+                dc_ = geom.min_image(m, p0[None, :], centres0)[0]
+                others_ok = all(dc_[j_] >= 1.5 * float(lens[j_].min()) * 1.04 for j_ in range(n_cl) if j_ != k_)
+                sat_ok = geom.min_image(m, p0[None, :], sat[0].reshape(-1, 3))[0].min() >= 0.7
+                if others_ok and sat_ok and (not free or geom.min_image(m, p0[None, :], np.array(free))[0].min() >= 0.8):
+                    free.append(np.mod(p0, 1))
+                    ctx.count('unbonded_satellite_atoms_between_the_global_and_the_local_bonding_radius')
                     break
     free_tr = (np.array(free)[None, :, :] + walk) if free else np.empty((T, 0, 3))
     ctx.count('unbonded_atoms_of_the_satellite_species', len(free))
